@@ -176,21 +176,33 @@ class Sudoku(Base):
                 y, x = rng.randrange(4), rng.randrange(4)
                 p[y][x] = base[y][x] if rng.random() < 0.7 else rng.randint(1, 4)
             out.append({"tag": "n2/%d" % k, "problem": p})
+
+        # larger orders, with givens at the two-digit boundary (order 4 uses 1..16)
+        full3 = [[(3 * (y % 3) + y // 3 + x) % 9 + 1 for x in range(9)] for y in range(9)]
+        full4 = [[(4 * (y % 4) + y // 4 + x) % 16 + 1 for x in range(16)] for y in range(16)]
+        for k in range(2 if tier == "quick" else 6):
+            out.append({"tag": "n3/r%d" % k, "n": 3, "problem": [[full3[y][x] if rng.random() < 0.45 else 0 for x in range(9)] for y in range(9)]})
+        p4 = [[full4[y][x] if rng.random() < 0.75 else 0 for x in range(16)] for y in range(16)]
+        out.append({"tag": "n4/consistent", "n": 4, "problem": p4})
+        bad = [row[:] for row in p4]
+        bad[0][0], bad[0][1] = 16, 16                  # two equal two-digit givens in one row: no solution
+        out.append({"tag": "n4/clash16", "n": 4, "problem": bad})
         return out
 
     def call(self, mod, d):
-        return mod.solve_sudoku(d["problem"], n=2)
+        return mod.solve_sudoku(d["problem"], n=d.get("n", 2))
 
     def rule(self, d, ret, env):
-        g = Grid(ret[1], env, 4, 4)
+        n = d.get("n", 2)
+        N = n * n
+        g = Grid(ret[1], env, N, N)
         cs = []
-        groups = [[(y, x) for x in range(4)] for y in range(4)] + [[(y, x) for y in range(4)] for x in range(4)]
-        groups += [[(by * 2 + dy, bx * 2 + dx) for dy in range(2) for dx in range(2)] for by in range(2) for bx in range(2)]
+        groups = [[(y, x) for x in range(N)] for y in range(N)] + [[(y, x) for y in range(N)] for x in range(N)]
+        groups += [[(by * n + dy, bx * n + dx) for dy in range(n) for dx in range(n)] for by in range(n) for bx in range(n)]
         for grp in groups:
-            for a, b in itertools.combinations(grp, 2):
-                cs.append(g(*a) != g(*b))
-        for y in range(4):
-            for x in range(4):
+            cs.append(z3.Distinct([g(*a) for a in grp]))
+        for y in range(N):
+            for x in range(N):
                 if d["problem"][y][x] >= 1:
                     cs.append(g(y, x) == d["problem"][y][x])
         return And(cs)
@@ -292,7 +304,12 @@ class Yajilin(Base):
                     y, x = rng.randrange(h), rng.randrange(w)
                     p[y][x] = rng.choice(["??"] + [dch + str(n) for dch in "^v<>" for n in (0, 1, 2)])
                 out.append({"tag": "%dx%d/r%d" % (h, w, k), "h": h, "w": w, "problem": p})
-            # systematic: one arrow clue in every cell, every direction, counts 0 and 1 (2 on the longer boards)
+            # systematic: one arrow clue in every cell, every direction, counts 0 and 1 (2 on the longer boards); one '??' clue
+            for y in range(h):
+                for x in range(w):
+                    p = [[".."] * w for _ in range(h)]
+                    p[y][x] = "??"
+                    out.append({"tag": "%dx%d/at%d,%d??" % (h, w, y, x), "h": h, "w": w, "problem": p})
             for y in range(h):
                 for x in range(w):
                     for dch in "^v<>":
@@ -509,6 +526,10 @@ class StarBattle(Base):
                     continue
                 out.append({"tag": "n%d/r%d" % (n, k), "n": n, "k": 1 if n < 5 or rng.random() < 0.7 else 2, "blocks": room_ids(n, n, rooms)})
 
+        # row / column stripes as blocks (the block rule then coincides with a line rule), two stars per line
+        for n in ((5, 6, 8) if tier == "quick" else (5, 6, 7, 8, 9)):
+            out.append({"tag": "n%d/k2/rows" % n, "n": n, "k": 2, "blocks": [[y] * n for y in range(n)]})
+            out.append({"tag": "n%d/k2/cols" % n, "n": n, "k": 2, "blocks": [list(range(n)) for _ in range(n)]})
         for n in ((8,) if tier == "quick" else (8, 9, 10)):
             for k in range(2 if tier == "quick" else 4):
                 for _try in range(80):
@@ -1267,7 +1288,8 @@ def _blank_ret(sp, d, s):
     from cspuz import BoolGridFrame as BGF
     m = sp.module
     if m == "sudoku":
-        return (None, s.int_array((4, 4), 1, 4))
+        N = d.get("n", 2) ** 2
+        return (None, s.int_array((N, N), 1, N))
     if m == "slitherlink":
         return (None, BGF(s, d["h"], d["w"]))
     if m in ("masyu", "geradeweg"):
